@@ -5,7 +5,7 @@ second check), record the outcome in seeded/<id>/check.json and print a table.
 import json, os, subprocess, sys, time
 HERE = os.path.dirname(os.path.dirname(os.path.abspath(__file__)))
 ROOT = os.path.join(HERE, "seeded")
-ALT = {"C09b-2": "C08", "C09d-2": "C08", "C16d-2": "C08"}   # written for C09, but what it needs is a thread interleaving: decided by C08's check
+ALT = {"C09b-2": "C08", "C09d-2": "C08", "C16d-2": "C08", "C06g-2": "C08", "C09g-1": "C08", "C16g-2": "C08"}   # written for C09, but what it needs is a thread interleaving: decided by C08's check
 ids = sys.argv[1:] or sorted(d for d in os.listdir(ROOT) if os.path.isdir(os.path.join(ROOT, d)) and not d.startswith("benign"))
 for i in ids:
     prop = ALT.get(i, i[:3])
